@@ -249,6 +249,7 @@ func hashStableUnderConcurrency(sum *hx.Summary) map[string]interface{} {
 	var mu sync.Mutex
 	wrong := 0
 	first := ""
+	startAll := make(chan struct{}) // all sixteen start hashing at the same moment
 	for g := 0; g < 16; g++ {
 		wg.Add(1)
 		go func(g int) {
@@ -263,7 +264,8 @@ func hashStableUnderConcurrency(sum *hx.Summary) map[string]interface{} {
 					mu.Unlock()
 				}
 			}()
-			for round := 0; round < 3; round++ {
+			<-startAll
+			for round := 0; round < 40; round++ {
 				for i := g; i < len(keys); i += 1 + g%3 {
 					if h := cache.MemHash(keys[i]); h != want[i] {
 						mu.Lock()
@@ -277,6 +279,7 @@ func hashStableUnderConcurrency(sum *hx.Summary) map[string]interface{} {
 			}
 		}(g)
 	}
+	close(startAll)
 	wg.Wait()
 	sum.Count("concurrent-hash-check")
 	if wrong > 0 {
